@@ -217,14 +217,14 @@ Proof.
     intros [_ H]. discriminate.
 Qed.
 
-(* `global x`, `global a ,b_2` are skipped; `globalx`, `global`, `global x y`, `del x`, `pass x`, `if(x>1):` are rejected *)
+(* `global x`, `global a ,b_2` are skipped; `globalx`, `global`, `global x; y = 5`, `del x`, `pass x`, `if(x>1):` are rejected *)
 Lemma tail_examples :
   tail_class_of tail_benign_eq tail_benign_rx tail_rejects false s_pass = TBenign /\
   tail_class_of tail_benign_eq tail_benign_rx tail_rejects false [103;108;111;98;97;108;32;120] = TBenign /\
   tail_class_of tail_benign_eq tail_benign_rx tail_rejects false [103;108;111;98;97;108;32;97;32;44;98;95;50] = TBenign /\
   tail_class_of tail_benign_eq tail_benign_rx tail_rejects false [103;108;111;98;97;108;120] = TReject /\
   tail_class_of tail_benign_eq tail_benign_rx tail_rejects false [103;108;111;98;97;108] = TReject /\
-  tail_class_of tail_benign_eq tail_benign_rx tail_rejects false [103;108;111;98;97;108;32;120;32;121] = TReject /\
+  tail_class_of tail_benign_eq tail_benign_rx tail_rejects false [103;108;111;98;97;108;32;120;59;32;121;32;61;32;53] = TReject /\
   tail_class_of tail_benign_eq tail_benign_rx tail_rejects false [100;101;108;32;120] = TReject /\        (* del x *)
   tail_class_of tail_benign_eq tail_benign_rx tail_rejects false [112;97;115;115;32;120] = TReject /\     (* pass x *)
   tail_class_of tail_benign_eq tail_benign_rx tail_rejects false s_if_paren = TReject.
